@@ -1,5 +1,4 @@
 import ChythonModel.Model.SmilesWriter
-import ChythonModel.Model.C03Front
 /-!
 # C02 — reading the writer's output back
 
@@ -8,8 +7,8 @@ import ChythonModel.Model.C03Front
                 parentheses, dot).  `Props/C02.lean` proves `lex (render ts) = ts`; the correspondence compares it with the
                 real `_tokenize` and with the tokenizer model of C03 on every evaluated string.
 * `readToks`  : the SMILES connection semantics on writer tokens (previous atom, branch stack, closure table).
-* `judge`     : isomorphism of the re-read molecule (reader model of C03 applied to the written text) with the original
-                under the written atom order; no canonicaliser involved.
+* (`Model/C02ReRead.lean`: `judge` — the reader model of C03 applied to the written text, compared with the original
+                under the written atom order; kept apart so that the theorems do not depend on the C03 files.)
 * `checkRun`  : executable structural checkers on the intermediate results of one run (spanning tree + closures cover
                 every bond once, flattening complete, closure discipline, parentheses) — the hypotheses of the partial
                 round-trip theorem, evaluated on every case of the correspondence.
@@ -367,54 +366,5 @@ def checkRun (m : Mol) (env : Env) (opts : Opts) : String :=
                  (if sortPairs (order.map (·, 0)) == sortPairs (m.ids.map (·, 0)) then [] else ["order"]) ++
                  (if lex (renderAll ts) == some (ts.filterMap toL) then [] else ["lex"])
     if fails.isEmpty then s!"ok maxopen={(closureScan ts).maxOpen} rounds={rs.length}" else "FAIL " ++ " ".intercalate fails
-
-/-! ## judge: re-read text vs original under the written order -/
-
-def strOf (s : Str) : String := String.ofList (s.map Char.ofNat)
-
-def showC03Err : C03.Err → String
-  | .lib c _ => "lib:" ++ c
-  | .crash c => "crash:" ++ c
-
-def bondOrderOut (out : C03.MolOut) (a b : Nat) : Option Nat :=
-  match C03.lookupNat a out.adj with
-  | some l => C03.lookupNat b l
-  | none => none
-
-/-- compare atom `i` of the re-read molecule with atom `order[i]` of the original; returns the list of differences -/
-def judge (m : Mol) (order : List Nat) (opts : Opts) (out : C03.MolOut) : List String :=
-  if out.atoms.length != order.length || order.length != m.atoms.length then ["atom-count"]
-  else
-    let pairs := out.atoms.zip order
-    let atomDiffs := pairs.flatMap fun (ra, n) =>
-      match m.atom? n with
-      | none => ["missing-atom"]
-      | some a =>
-        let (_, z, iso, ch, rad, h) := ra
-        (if z != a.z then [s!"element@{n}"] else []) ++
-        (if iso != (match a.isotope with | some 0 => none | x => x) then [s!"isotope@{n}"] else []) ++
-        (if opts.charges && ch != a.charge then [s!"charge@{n}"] else []) ++
-        (if opts.cx && rad != a.radical then [s!"radical@{n}"] else []) ++
-        (match h with | some k => if k != a.implH.getD 0 then [s!"hcount@{n}"] else [] | none => [])
-    let bondDiffs := pairs.flatMap fun (ra, n) => pairs.flatMap fun (rb, k) =>
-      if n < k then
-        let want := (m.bond? n k).map (·.order)
-        let got := bondOrderOut out ra.1 rb.1
-        if opts.bonds then (if want != got then [s!"bond@{n}-{k}"] else [])
-        else (if want.isSome != got.isSome then [s!"bond@{n}-{k}"] else [])
-      else []
-    atomDiffs ++ bondDiffs
-
-def roundTrip (m : Mol) (env : Env) (opts : Opts) : String :=
-  match write m env opts with
-  | .error e => "err " ++ e.name
-  | .ok (text, order) =>
-    match C03.smiles text with
-    | .error e => "reader " ++ showC03Err e ++ " " ++ strOf text
-    | .ok (.rxn _ _ _) => "reader reaction " ++ strOf text
-    | .ok (.mol _ out) =>
-      match judge m order opts out with
-      | [] => "ok iso " ++ strOf text
-      | ds => "ok DIFF " ++ ",".intercalate (ds.take 6) ++ " " ++ strOf text
 
 end ChythonModel.Model.C02RT
